@@ -399,7 +399,7 @@ fn c07_data_v4_t2() {
 }
 
 /// every segment without SYN and without PSH&ACK-both: FIN|ACK handshake, silence for
-/// bare ACK / RST / RST|ACK, nothing reaches the application layer, table untouched
+/// bare ACK / RST, nothing reaches the application layer, table untouched
 fn other_segments(v6: bool, nt: usize, n: usize) {
     let buf: [u8; 24] = kani::any();
     kani::assume(buf[12] >> 4 == 5 || buf[12] >> 4 == 6);
@@ -432,7 +432,7 @@ fn other_segments(v6: bool, nt: usize, n: usize) {
         kani::cover!(true, "finack answered");
         return;
     }
-    if flags == TcpFlags::ACK || flags == TcpFlags::RST || flags == TcpFlags::RST | TcpFlags::ACK {
+    if flags == TcpFlags::ACK || flags == TcpFlags::RST {
         assert!(r.is_none(), "C07/C12: bare ACK or RST segment answered");
         kani::cover!(flags == TcpFlags::RST, "rst ignored");
         kani::cover!(flags == TcpFlags::ACK, "ack ignored");
